@@ -121,6 +121,9 @@ def handle (j : Json) : Except String Json := do
     let r := analyzeAccumulator shape1 sl bias xmin xmax
     let bounds := (sl.zip bias).map fun (ws, b) => ratToJson (chanBound ws b xmin xmax)
     pure <| Json.mkObj [("result", estToJson r), ("chan_bounds", Json.arr bounds.toArray)]
+  | "populate" =>
+    let q ← qrecOfJson (← j.getObjVal? "q")
+    pure <| Json.mkObj ((populate q).map fun (k, v) => (k, Json.num v))
   | "po2range" =>
     let (a, b) := po2RealRange (← getInt j "bits") (← getBool j "is_relu") (← getOptRat j "max_value")
     pure <| Json.mkObj [("min_exp", Json.num a), ("max_exp", Json.num b)]
